@@ -1,7 +1,125 @@
 (* C18/Property.v — property theorems only. *)
 From Coq Require Import String List Bool.
-From Verif Require Import Base.Str C18.Model C18.Spec C18.Codec C18.Proofs.
+From Verif Require Import Base.Str C18.Model C18.ModelV0 C18.Spec C18.Codec C18.Key C18.Reflect C18.Proofs.
+Import ListNotations.
 
+(* C18, identifier store (code after 331c8f06 / afb60e41 / 9057a062): for EVERY history of IdentDB operations
+   from the empty store (any length, any users / requesters / qualifiers / formats / NameID arguments over
+   arbitrary byte strings) that satisfies the hypotheses of the property (wf: user names disjoint from
+   identifier values, generated identifiers fresh, the low-level store() is not handed a second persistent
+   identifier for a triple), persistent identifiers are stable, pairwise distinct and map back exactly;
+   issued identifiers have a value; transient identifiers are fresh; NewID / Terminate are local; the store
+   is consistent after every step.  No guard. *)
+Theorem c18_ident : forall cfg is_user ops, ident_spec cfg is_user (mtrace cfg [] ops).
+Proof. exact ident_holds. Qed.
+Print Assumptions c18_ident.
+
+(* the parts, by name *)
+Theorem c18_persistent_stable : forall cfg is_user ops,
+  wf cfg is_user (mtrace cfg [] ops) -> all_pairs (stable_pair cfg) (mtrace cfg [] ops).
+Proof. exact persistent_stable. Qed.
+Print Assumptions c18_persistent_stable.
+
+Theorem c18_pairwise_distinct : forall cfg is_user ops,
+  wf cfg is_user (mtrace cfg [] ops) -> all_pairs (distinct_pair cfg) (mtrace cfg [] ops).
+Proof. exact pairwise_distinct. Qed.
+Print Assumptions c18_pairwise_distinct.
+
+Theorem c18_reverse_exact : forall cfg is_user ops,
+  wf cfg is_user (mtrace cfg [] ops) -> all_pairs (reverse_pair cfg) (mtrace cfg [] ops).
+Proof. exact reverse_exact. Qed.
+Print Assumptions c18_reverse_exact.
+
+Theorem c18_transient_fresh : forall cfg is_user ops,
+  wf cfg is_user (mtrace cfg [] ops) -> all_events (transient_event cfg) (mtrace cfg [] ops).
+Proof. exact transient_fresh. Qed.
+Print Assumptions c18_transient_fresh.
+
+Theorem c18_manage_local : forall cfg is_user ops,
+  wf cfg is_user (mtrace cfg [] ops) -> all_events manage_event (mtrace cfg [] ops).
+Proof. exact manage_local. Qed.
+Print Assumptions c18_manage_local.
+
+(* invariant of every reachable state: each stored identifier has its reverse entry and vice versa *)
+Theorem c18_reachable_inv : forall cfg is_user ops,
+  wf cfg is_user (mtrace cfg [] ops) ->
+  forward_ok is_user (final_state cfg [] ops) /\ reverse_ok is_user (final_state cfg [] ops).
+Proof. exact reachable_inv. Qed.
+Print Assumptions c18_reachable_inv.
+
+(* the boolean spec / class guards that Coq evaluates on the implementation's recorded traces are the stated ones *)
+Theorem c18_ident_reflect : forall cfg is_user tr, ident_spec_b cfg is_user tr = true <-> ident_spec cfg is_user tr.
+Proof. exact ident_spec_b_iff. Qed.
+Print Assumptions c18_ident_reflect.
+
+Theorem c18_guards_reflect : forall cfg tr,
+  (qualified_b cfg tr = true <-> qualified cfg tr) /\ (single_valued_b cfg tr = true <-> single_valued cfg tr).
+Proof. exact guards_reflect. Qed.
+Print Assumptions c18_guards_reflect.
+
+(* the pinned snapshot (ModelV0) violated the property: finding classes 2 and 3, both repaired *)
+Theorem c18_class2_v0_refuted :
+  exists cfg is_user ops, qualified cfg (V0.mtrace cfg [] ops) /\ wf cfg is_user (V0.mtrace cfg [] ops)
+                          /\ ~ ident_spec cfg is_user (V0.mtrace cfg [] ops).
+Proof. exact class2_v0_refuted. Qed.
+Print Assumptions c18_class2_v0_refuted.
+
+Theorem c18_class3_v0_refuted :
+  exists cfg is_user ops, single_valued cfg (V0.mtrace cfg [] ops) /\ wf cfg is_user (V0.mtrace cfg [] ops)
+                          /\ ~ ident_spec cfg is_user (V0.mtrace cfg [] ops).
+Proof. exact class3_v0_refuted. Qed.
+Print Assumptions c18_class3_v0_refuted.
+
+(* C18, encoding: decode after code is the identity up to "empty = absent", for all five-field
+   identifiers over arbitrary byte strings; code is injective (collision-free) up to the same *)
 Theorem c18_decode_code : forall n, decode (code n) = Some (norm n).
 Proof. exact decode_code. Qed.
 Print Assumptions c18_decode_code.
+
+Theorem c18_code_injective : forall n m, code n = code m <-> norm n = norm m.
+Proof. exact code_injective_iff. Qed.
+Print Assumptions c18_code_injective.
+
+Theorem c18_codec : forall l, codec_spec (map (fun n => (n, code n, decode (code n))) l).
+Proof. exact codec_holds. Qed.
+Print Assumptions c18_codec.
+
+Theorem c18_codec_reflect : forall items, codec_spec_b items = true <-> codec_spec items.
+Proof. exact codec_spec_b_iff. Qed.
+Print Assumptions c18_codec_reflect.
+
+(* C18, targeted id: the cache key determines the call, so in EVERY history the answer is the answer of a
+   fresh instance, for any hash function (no guard) *)
+Theorem c18_eptid_key_injective : forall x y, eptid_key x = eptid_key y -> x = y.
+Proof. exact eptid_key_injective. Qed.
+Print Assumptions c18_eptid_key_injective.
+
+Theorem c18_eptid_deterministic : forall md5hex secret h,
+  eptid_run md5hex secret [] h = map (emake md5hex secret) h.
+Proof. exact eptid_deterministic. Qed.
+Print Assumptions c18_eptid_deterministic.
+
+(* with an injective fixed-length hash the ids are distinct for distinct requester / user pairs, for every
+   history whose calls carry the same extra arguments (guard of the open finding class 4) *)
+Theorem c18_eptid : forall md5hex,
+  (forall a b, md5hex a = md5hex b -> a = b) ->
+  (forall a b, String.length (md5hex a) = String.length (md5hex b)) ->
+  forall secret h, same_extras h -> eptid_spec (eptid_obs md5hex secret h).
+Proof. exact eptid_holds. Qed.
+Print Assumptions c18_eptid.
+
+(* class 4 (open): Eptid.make concatenates its arguments without separator — for EVERY hash function *)
+Theorem c18_eptid_make_refuted : forall md5hex, exists secret h, ~ eptid_spec (eptid_obs md5hex secret h).
+Proof. exact eptid_make_refuted. Qed.
+Print Assumptions c18_eptid_make_refuted.
+
+(* class 1 (repaired): the old cache key sp ++ "__" ++ user — for EVERY hash function, same extra arguments *)
+Theorem c18_eptid_v0_refuted : forall md5hex, exists secret h, same_extras h /\ ~ eptid_spec (eptid_obs_v0 md5hex secret h).
+Proof. exact eptid_v0_refuted. Qed.
+Print Assumptions c18_eptid_v0_refuted.
+
+Theorem c18_eptid_reflect : forall obs h,
+  (eptid_spec_b obs = true <-> eptid_spec obs) /\ (key_collision_b h = false <-> no_key_collision h)
+  /\ (same_extras_b h = true <-> same_extras h).
+Proof. exact eptid_reflect. Qed.
+Print Assumptions c18_eptid_reflect.
